@@ -155,6 +155,8 @@ def truth_term(v):
         raise Unsupported(f"truthiness of possibly-empty symbolic string {v!r}")
     if isinstance(v, SObj):
         return z3.BoolVal(True)
+    if hasattr(v, "vf_truth"):
+        return v.vf_truth()
     if isinstance(v, Sym):
         raise Unsupported(f"truthiness of {type(v).__name__}")
     return z3.BoolVal(bool(v))
